@@ -24,6 +24,11 @@ type Clause struct {
 type LoopSpec struct {
 	Invariants []*Clause
 	Decreases  *Clause
+	// LockVariant: the iterations acquire or release locks (LockPile). The
+	// lock ledgers are havocked at the loop head like any other state the
+	// body writes and are described by the invariants, instead of having to
+	// be the same at every iteration.
+	LockVariant bool
 }
 
 type SiteSpec struct {
@@ -557,6 +562,17 @@ func (cs *ContractSet) parseClause(fc *FuncContract, c rawClause) error {
 	case "loop":
 		// loop N invariant expr | loop N decreases expr
 		f := strings.Fields(c.text)
+		if len(f) == 2 && f[1] == "lockvariant" {
+			n, err := strconv.Atoi(f[0])
+			if err != nil {
+				return fmt.Errorf("loop index: %v", err)
+			}
+			if fc.Loops[n] == nil {
+				fc.Loops[n] = &LoopSpec{}
+			}
+			fc.Loops[n].LockVariant = true
+			return nil
+		}
 		if len(f) < 3 {
 			return fmt.Errorf("malformed loop clause")
 		}
